@@ -129,7 +129,7 @@ theorem evalExpr_mcall1 (n ln l : Nat) (p : Expr) (m : Ident) (params : List Exp
   simp only [evalExpr, List.foldlM_cons, List.foldlM_nil, matchIDNameOpt, bind_pure]
 
 theorem evalStmt_expr (n : Nat) (e : Expr) : evalStmt (ν := ν) (n+1) (.expr e) = (do
-    setTopFrame fun fr => { fr with line := (Stmt.expr e).line }
+    setTopFrame fun fr => { fr with line := (Stmt.expr e).line, started := true }
     evalExpr n e) := by
   simp only [evalStmt]
 
@@ -620,7 +620,7 @@ theorem mcall_run (Z : Zone ν) {g : List (String × Addr)} {cs : Int} {sc : Sco
       exact ⟨hk, fun ⟨v, hv⟩ => absurd hv (hne v)⟩
 
 theorem setTopFrame_line (k : Nat) (s : VM ν) :
-    ∃ s0, setTopFrame (fun fr => { fr with line := k }) s = (.ok (), s0) ∧ s0.heap = s.heap ∧ s0.globals = s.globals ∧
+    ∃ s0, setTopFrame (fun fr => { fr with line := k, started := true }) s = (.ok (), s0) ∧ s0.heap = s.heap ∧ s0.globals = s.globals ∧
       s0.scopes = s.scopes ∧ s0.csModuleID = s.csModuleID ∧ topMod s0.stack = topMod s.stack := by
   unfold setTopFrame modifyVM
   refine ⟨_, rfl, ?_⟩
@@ -922,7 +922,7 @@ theorem id_eval (k l : Nat) (x : String) (s0 sA : VM ν) (obj : Addr) (h : evalE
 /-- the steps of `令 y 为 x` -/
 theorem decl_inv (n ln l1 l2 : Nat) (x y : String) (s s1 : VM ν) (r1 : Addr)
     (h : evalStmt n (.varDecl ln [(1, [⟨l1, y⟩], .id ⟨l2, x⟩)]) s = (.ok r1, s1)) :
-    ∃ k s0 obj sA b sB s3, n = k + 1 ∧ setTopFrame (fun fr => { fr with line := ln }) s = (.ok (), s0) ∧
+    ∃ k s0 obj sA b sB s3, n = k + 1 ∧ setTopFrame (fun fr => { fr with line := ln, started := true }) s = (.ok (), s0) ∧
       evalExpr k (.id ⟨l2, x⟩) s0 = (.ok obj, sA) ∧ dup k obj sA = (.ok b, sB) ∧
       declareElement y b false none sB = (.ok (), s3) ∧ s1 = { s3 with heap := s3.heap.push .null } := by
   cases n with
